@@ -634,6 +634,14 @@ def check(repo: Repo, run: Run) -> None:
     run.ob("K9", MOD, "TracesParser.parse_event_list", "None unless id in table and name has a decoder", ok,
            "parse_event_list is not `None unless events[0].eventid in trace_codes and its name in handlers, else "
            "handlers[name](self, events)`", line=fn.lineno)
+    if live:
+        first_id = T("attr", (T("sub", (evs, const(0))), "eventid"))
+        extra = [c for c, _ in live[0].pc if sym.contains(sym.subst(c, {first_id: T("hole", ("id",))}), evs)]
+        run.ob("K9", MOD, "TracesParser.parse_event_list", "whether a window is decoded depends on its first record's code only",
+               not extra, "" if not extra else
+               f"parse_event_list also declines (returns None) depending on {sym.pretty(extra[0])[:80]}: a window - or the list of "
+               f"nested records a decoder hands back - whose other records make that condition false yields no trace",
+               line=live[0].lineno, witness="a window whose last record differs from its first in that respect")
     run.ob("K9", MOD, "TracesParser.parse_event_list", "no state change",
            not [e for e in rec.effects if e.func.endswith(".parse_event_list")], "parse_event_list mutates state", nontrivial=False)
 
